@@ -42,13 +42,50 @@ func (c *Ctx) fieldWrites(obj ssa.Value, path []string) []valueCase {
 			}
 		}
 	}
-	for _, s := range c.storesTo(obj, path) {
+	stores := c.storesTo(obj, path)
+	for _, s := range stores {
+		// "assign, then override under a condition": this store is the value that reaches the sender only on the
+		// paths that do not run a later store to the same field; when the later store sits under exactly one
+		// more branch condition than this one, that condition's negation is a fact about this store's value
+		var killed []Guard
+		for _, s2 := range stores {
+			if s2.Instr == s.Instr || len(s2.Rest) != len(s.Rest) {
+				continue
+			}
+			b1, b2 := s.Instr.Block(), s2.Instr.Block()
+			after := false
+			if b1 == b2 {
+				after = instrIndex(s2.Instr).i > instrIndex(s.Instr).i
+			} else {
+				after = b1.Dominates(b2)
+			}
+			if !after {
+				continue
+			}
+			g1, g2 := guardsOf(b1), guardsOf(b2)
+			var extra []Guard
+			for _, g := range g2 {
+				have := false
+				for _, h := range g1 {
+					if h.Cond == g.Cond && h.Truth == g.Truth {
+						have = true
+					}
+				}
+				if !have {
+					extra = append(extra, g)
+				}
+			}
+			if len(extra) == 1 {
+				killed = append(killed, Guard{Cond: extra[0].Cond, Truth: !extra[0].Truth})
+			}
+		}
 		for _, o := range c.origins(s.Val) {
 			o2 := o
 			if len(s.Rest) > 0 {
 				o2.Path = append(append([]string{}, o.Path...), s.Rest...)
 			}
 			gs := append(append([]Guard{}, o.Guards...), guardsOf(s.Instr.Block())...)
+			gs = append(gs, killed...)
 			out = append(out, valueCase{o2, gs, s.Instr})
 		}
 	}
